@@ -224,6 +224,28 @@ theorem C09_input_by_value (n : Node) (σ : St) (k k' : Nat) (v : Val) :
     (setIn n σ k v).get .inp k' = if k' = k then v else σ.get .inp k' :=
   setIn_get_inp n σ k k' v
 
+/-- a parameter that no child uses and that is not returned (`link = gone`): it is accepted, its UI node
+is purged, and
+* on the current tree the macro input is linked to NOTHING (`Cfg.repaired`; pinned: it stayed linked to the
+  removed node — a link that could not be restored from storage, C07's subject),
+* assigning it changes the macro input alone — no channel of any child or UI node,
+* its value does not matter for any output -/
+theorem C09_unused_argument {args body rets oh s} {k : Nat} (h : link body rets k = .gone) :
+    receiverOf Cfg.repaired body rets k = .none ∧ receiverOf Cfg.pinned body rets k = .orphan ∧
+    (∀ (σ : St) (v : Val), setIn (.mac args body rets oh s) σ k v = σ.set .inp k v) ∧
+    (∀ a a' : Nat → Val, (∀ k', k' ≠ k → a k' = a' k') →
+      denote (.mac args body rets oh s) a = denote (.mac args body rets oh s) a') := by
+  refine ⟨by simp [receiverOf, h, Cfg.repaired], by simp [receiverOf, h, Cfg.pinned],
+    fun σ v => setIn_gone h σ v, fun a a' hag => denote_unused h a a' hag⟩
+
+/-- `def M(self, x0, x1='c2'): self.c0 = F0(a=x0); return self.c0` — `x1` is unused -/
+def exUnused : Node := .mac [⟨.nd, 0⟩, ⟨.c 2, 0⟩] [.leaf 0 [.arg 0, .none, .none]] [.out 0 0] [0] []
+
+example : link [.leaf 0 [.arg 0, .none, .none]] [.out 0 0] 1 = .gone ∧
+    buildErr Cfg.repaired exUnused = false ∧ buildErr Cfg.pinned exUnused = false ∧
+    (run exUnused (setIn exUnused (setIn exUnused (build exUnused) 0 (.c 1)) 1 (.c 9))).map (fun σ => σ.get .out 0)
+      = (run exUnused (setIn exUnused (build exUnused) 0 (.c 1))).map (fun σ => σ.get .out 0) := by decide
+
 /-- the macro input's hint is compared with the consumer's hint only when the parameter is used
 exactly once (then the UI node is purged and the macro input is linked to the consumer directly):
 the same ill-typed feed `x: object → inner(x: str|tuple)` is refused single-use and accepted forked -/
@@ -305,4 +327,5 @@ end PwVerif.C09
 #print axioms PwVerif.C09.C09_isolated
 #print axioms PwVerif.C09.C09_interface
 #print axioms PwVerif.C09.C09_input_by_value
+#print axioms PwVerif.C09.C09_unused_argument
 #print axioms PwVerif.C09.C09_hint_checked_only_when_single_use
